@@ -201,6 +201,33 @@ func c08Rules(p *Program, r *Report) {
 						}
 					}
 				}
+				if !used {
+					// handed to a helper of the package that sizes the destination with it
+					for _, bb := range fn.Blocks {
+						for _, in2 := range bb.Instrs {
+							if hc, ok := in2.(*ssa.Call); ok {
+								if g := hc.Call.StaticCallee(); g != nil && g.Pkg == fn.Pkg && g.Blocks != nil {
+									for ai, a := range hc.Call.Args {
+										base, _ := mulForm(a)
+										if !isPrefix(base) || ai >= len(g.Params) {
+											continue
+										}
+										for _, gb := range g.Blocks {
+											for _, gi := range gb.Instrs {
+												if ms, ok := gi.(*ssa.MakeSlice); ok {
+													mb, _ := mulForm(ms.Len)
+													if mb == ssa.Value(g.Params[ai]) {
+														used = true
+													}
+												}
+											}
+										}
+									}
+								}
+							}
+						}
+					}
+				}
 				if used {
 					r.OKf("prefix-used", key, c.Pos(), "the length read from the wire sizes an allocation")
 				} else {
@@ -263,6 +290,38 @@ func sizedFromPrefix(n ssa.Value) (string, bool) {
 		return "", false
 	}
 	switch x := base.(type) {
+	case *ssa.Parameter:
+		// a helper sized by its caller: every static caller must pass the wire prefix
+		fn := x.Parent()
+		if fn == nil || fn.Object() == nil || fn.Object().Exported() || prefixDepth > 3 {
+			return "", false
+		}
+		idx := -1
+		for i, pp := range fn.Params {
+			if pp == x {
+				idx = i
+			}
+		}
+		found, all := 0, true
+		for g := range prefixAllFuncs(fn) {
+			for _, b := range g.Blocks {
+				for _, ins := range b.Instrs {
+					if c, ok := ins.(*ssa.Call); ok && c.Call.StaticCallee() == fn && idx < len(c.Call.Args) {
+						found++
+						prefixDepth++
+						_, ok := sizedFromPrefix(c.Call.Args[idx])
+						prefixDepth--
+						if !ok {
+							all = false
+						}
+					}
+				}
+			}
+		}
+		if found > 0 && all {
+			return "parameter " + x.Name() + " (the wire prefix at every call site)", true
+		}
+		return "", false
 	case *ssa.UnOp:
 		if x.Op != token.MUL {
 			return "", false
@@ -563,4 +622,33 @@ func c08CompressWrites(p *Program, r *Report) {
 			r.OKf("compress-writes", key, fn.Pos(), "every success return follows a write to the destination")
 		}
 	}
+}
+
+var prefixDepth int
+
+// prefixAllFuncs: the functions of fn's package (callers of an unexported helper live there).
+func prefixAllFuncs(fn *ssa.Function) map[*ssa.Function]bool {
+	out := map[*ssa.Function]bool{}
+	if fn.Pkg == nil {
+		return out
+	}
+	for _, m := range fn.Pkg.Members {
+		if f, ok := m.(*ssa.Function); ok {
+			out[f] = true
+			for _, an := range f.AnonFuncs {
+				out[an] = true
+			}
+		}
+		if t, ok := m.(*ssa.Type); ok {
+			for _, recvT := range []types.Type{t.Type(), types.NewPointer(t.Type())} {
+				ms := fn.Prog.MethodSets.MethodSet(recvT)
+				for i := 0; i < ms.Len(); i++ {
+					if f := fn.Prog.MethodValue(ms.At(i)); f != nil {
+						out[f] = true
+					}
+				}
+			}
+		}
+	}
+	return out
 }
